@@ -4,3 +4,4 @@ import GormModel.Model.Batches
 import GormModel.Model.Pipeline
 import GormModel.Props.C15
 import GormModel.Props.C19
+import GormModel.Props.C18
